@@ -176,7 +176,7 @@ def run_case(spec, ctx):
             ctx.maxstat('theta-order inversion', gap[k], dict(where, theta2=th2))
 
     # 6. row independence -------------------------------------------------------------------
-    B = biv.mixed_points(rng, 48)
+    B = biv.mixed_points(rng, 48 if spec['n_ref'] < 200 else 1000)
     # batch compositions that exercise batch-level shortcuts: all-boundary, mixed, permuted
     compos = [B, B[rng.permutation(len(B))][:7],
               np.column_stack([rng.random(5), np.zeros(5)]),
